@@ -75,3 +75,67 @@ func TestDbg(t *testing.T) {
 		}
 	}
 }
+
+func TestDbgScen(t *testing.T) {
+	g := os.Getenv("DBG_SCEN")
+	if g == "" {
+		t.Skip()
+	}
+	var id string
+	var seed uint64
+	var idx int
+	fmt.Sscanf(strings.ReplaceAll(g, ":", " "), "%s %d %d", &id, &seed, &idx)
+	sc := GenScenario(props.Get(id), "quick", seed, idx)
+	b, _ := json.Marshal(sc)
+	fmt.Println(string(b))
+}
+
+func TestDbgPkt(t *testing.T) {
+	g := os.Getenv("DBG_PKT")
+	if g == "" {
+		t.Skip()
+	}
+	var id string
+	var seed uint64
+	var idx, pkt int
+	fmt.Sscanf(strings.ReplaceAll(g, ":", " "), "%s %d %d %d", &id, &seed, &idx, &pkt)
+	p := props.Get(id)
+	seen := map[string]bool{}
+	for rep := 0; rep < 60; rep++ {
+		out := sim.Execute(t, GenScenario(p, "quick", seed, idx), true)
+		pk := out.W.Pkts[pkt]
+		key := fmt.Sprintf("%+v", pk.Ep)
+		if !seen[key] {
+			seen[key] = true
+			fmt.Printf("rep %d pkt%d origin=%+v ether=%x only=%d\n  bytes=%x\n  fate=%+v\n", rep, pkt, pk.Origin, pk.Ether, pk.OnlyEp, pk.Bytes, pk.Ep)
+			for _, ep := range out.W.Eps {
+				for _, f := range ep.Filters {
+					fmt.Printf("  %s filter at %v: %+v err=%q\n", ep.Actor, f.At, f.Spec, f.Err)
+				}
+			}
+		}
+	}
+}
+
+func TestDbgOne(t *testing.T) {
+	g := os.Getenv("DBG_ONE")
+	if g == "" {
+		t.Skip()
+	}
+	var id string
+	var seed uint64
+	var idx int
+	fmt.Sscanf(strings.ReplaceAll(g, ":", " "), "%s %d %d", &id, &seed, &idx)
+	p := props.Get(id)
+	// warm the process the way a worker would be warm: run the preceding indices first
+	from := idx - envInt("DBG_WARM", 0)
+	if from < 0 {
+		from = 0
+	}
+	for i := from; i < idx; i++ {
+		sim.Execute(t, GenScenario(p, "quick", seed, i), false)
+	}
+	out := sim.Execute(t, GenScenario(p, "quick", seed, idx), true)
+	os.WriteFile(os.Getenv("DBG_OUT"), []byte(strings.Join(out.W.Log.Lines, "\n")+"\n"), 0o644)
+	fmt.Println("HASH", out.LogHash[:12])
+}
